@@ -1,9 +1,339 @@
 import OomdProofs.Config
 
-namespace C12
-open OomdModel.Parse OomdModel.Config
+/-!
+# C12 — A configuration is either rejected cleanly or honoured exactly
 
-/-- placeholder while the check is being assembled -/
-theorem schema_table_pinned : OomdModel.Generated.typedSchemas = Spec.declaredSchemas := by decide
+Property theorems only.  Models: `OomdModel.Parse` (std::sto*, parseSize, parseSizeOrPercent,
+parseUnsignedInt, parseValue<T>, parseCgroup) and `OomdModel.Config` (JsonConfigParser,
+PluginArgParser::parse against the extracted schemas, ConfigCompiler, the two loading paths), both
+of the code WITH the fixes of /verif/fixes/C12-*.patch.  Specifications: `OomdModel.Parse.Spec`
+(what a value string means, as a grammar over the whole string, in exact arithmetic) and
+`OomdModel.Config.Spec` (valid / honoured, over the pinned table of declared arguments).
+
+All statements quantify over every string (`List Char`), every IR, every JSON value tree and every
+environment; the only hypotheses are range assumptions on what the machine reports (`TotalOk`,
+`EnvOk`), satisfied by the examples at the end.
+-/
+
+namespace C12
+open OomdModel.Parse OomdModel.Parse.Spec OomdModel.Config OomdModel.Config.Spec OomdModel.Generated
+open OomdProofs.Parse OomdProofs.Config
+
+/-! ## sizes: `1.5G 32K`, bare megabytes, `N%` -/
+
+/-- Whatever `Util::parseSize` accepts is a valid size, and the value is its exact byte count. -/
+theorem size_exact (s : Str) (v : Int) (h : parseSize s = some v) : validSize s = some v :=
+  parseSize_sound h
+
+/-- Anything that is not a valid size (overflowing, non-finite, empty, garbage …) is rejected. -/
+theorem size_invalid_rejected (s : Str) (h : validSize s = none) : parseSize s = none := by
+  cases hp : parseSize s with
+  | none => rfl
+  | some v => rw [size_exact s v hp] at h; exact absurd h (by simp)
+
+/-- An accepted size never wraps: it lies strictly inside the int64 range. -/
+theorem size_fits_int64 (s : Str) (v : Int) (h : parseSize s = some v) : -(2 ^ 63) < v ∧ v < 2 ^ 63 := by
+  have hv := size_exact s v h
+  unfold validSize at hv
+  simp only at hv
+  split at hv
+  · exact absurd hv (by simp)
+  · split at hv
+    · rename_i total _
+      split at hv
+      · rename_i hlt
+        simp only [Option.some.injEq] at hv
+        subst hv
+        split <;> omega
+      · exact absurd hv (by simp)
+    · exact absurd hv (by simp)
+
+/-- The arithmetic primitive of the specification means what its name says:
+    `floorBelow cap m b e u` is `⌊m · b^e · u⌋` when that is below `cap`, else nothing. -/
+theorem floor_meaning (cap m base : Nat) (e : Int) (u : Nat) (hb : 2 ≤ base) :
+    floorBelow cap m base e u =
+      if exactFloor m base e u < cap then some (exactFloor m base e u) else none :=
+  floorBelow_eq hb
+
+/-- `parseSizeOrPercent`: accepted ⇒ valid with exactly that value (`N%` of the total, rounded
+    down; a bare integer is megabytes; else a size), for every total the machine can report. -/
+theorem size_or_percent_exact (s : Str) (total v : Int) (ht : TotalOk total)
+    (h : parseSizeOrPercent s total = some v) : validSizeOrPercent s total = some v :=
+  parseSizeOrPercent_sound ht h
+
+theorem size_or_percent_invalid_rejected (s : Str) (total : Int) (ht : TotalOk total)
+    (h : validSizeOrPercent s total = none) : parseSizeOrPercent s total = none := by
+  cases hp : parseSizeOrPercent s total with
+  | none => rfl
+  | some v => rw [size_or_percent_exact s total v ht hp] at h; exact absurd h (by simp)
+
+/-! ## numbers -/
+
+/-- `int`, `int64` and millisecond arguments: accepted exactly when the whole string is one
+    integer numeral inside the type's range - no truncation of fractions, no trailing garbage,
+    no wrap-around. -/
+theorem integer_exact_iff (bits : Nat) (s : Str) (v : Int) :
+    whole (stoSigned bits s) = .ok v ↔
+      inRange (-((2 : Int) ^ (bits - 1))) ((2 : Int) ^ (bits - 1)) (intNumeral? s) = some v :=
+  whole_stoSigned bits s v
+
+/-- `double` / `float` arguments: accepted ⇒ the whole string is one floating numeral the format
+    can hold, and the value handed on is that numeral's exact value. -/
+theorem float_exact (f : Fmt) (s : Str) (v : FVal) (h : whole (stoFloat f s) = .ok v) :
+    floatIn f s = some v :=
+  whole_stoFloat h
+
+/-- Every argument kind a plugin can declare: what its parser accepts is a valid reading of the
+    string in that kind, with exactly that value. -/
+theorem value_exact (k : ArgKind) (fs : Str) (total : Int) (s : Str) (v : Val) (ht : TotalOk total)
+    (h : parseArg k fs total s = .ok v) : validReading k fs total s = some v :=
+  parseArg_sound ht h
+
+/-- A string without a valid reading in the argument's kind is rejected (by a `std::exception`
+    that `PluginArgParser::parse` turns into an error result). -/
+theorem value_invalid_rejected (k : ArgKind) (fs : Str) (total : Int) (s : Str) (ht : TotalOk total)
+    (h : validReading k fs total s = none) : ∃ e, parseArg k fs total s = .error e := by
+  cases hp : parseArg k fs total s with
+  | error e => exact ⟨e, rfl⟩
+  | ok v => rw [value_exact k fs total s v ht hp] at h; exact absurd h (by simp)
+
+/-! ## the declared arguments -/
+
+/-- The argument schemas regenerated from /repo on this run are the pinned table the
+    specification is written over (names, required flags, kinds, for every registered plugin). -/
+theorem schema_table_pinned : typedSchemas = declaredSchemas := schemas_eq
+
+/-- What `pluginValid` says, clause by clause: the plugin is named, it exists, every required
+    argument is present, every given argument is declared (or is one the plugin consumes itself)
+    and has a valid reading in the kind of its declaration. -/
+theorem plugin_valid_means (env : Env) (hook : Bool) (p : IRPlugin) :
+    pluginValid env hook p = true ↔
+      p.name ≠ [] ∧ ∃ sch, schemaOf declaredSchemas hook p.name = some sch ∧
+        (∀ a ∈ (declaredFor sch p.args).args, a.required = true → hasArg p.args a.name = true) ∧
+        (∀ kv ∈ p.args, isExtern (declaredFor sch p.args) kv.1 = true ∨
+          ∃ a, (declaredFor sch p.args).args.find? (fun a => a.name.toList == kv.1) = some a ∧
+            ∃ v, validReading a.kind env.fs (totalFor env sch p.args) kv.2 = some v) := by
+  unfold pluginValid
+  constructor
+  · intro h
+    simp only [Bool.and_eq_true, Bool.not_eq_true'] at h
+    obtain ⟨hn, hm⟩ := h
+    refine ⟨by intro hc; simp [hc] at hn, ?_⟩
+    cases hs : schemaOf declaredSchemas hook p.name with
+    | none => simp [hs] at hm
+    | some sch =>
+      simp only [hs, Bool.and_eq_true, List.all_eq_true] at hm
+      refine ⟨sch, rfl, ?_, ?_⟩
+      · intro a ha hr
+        have := hm.1 a ha
+        simpa [hr] using this
+      · intro kv hkv
+        have := hm.2 kv hkv
+        simp only [Bool.or_eq_true] at this
+        rcases this with h1 | h1
+        · exact Or.inl h1
+        · right
+          unfold argReading at h1
+          cases hf : List.find? (fun a => a.name.toList == kv.1) (declaredFor sch p.args).args with
+          | none => simp [hf] at h1
+          | some a =>
+            simp only [hf] at h1
+            exact ⟨a, rfl, Option.isSome_iff_exists.1 h1⟩
+  · rintro ⟨hn, sch, hs, h1, h2⟩
+    have : (!p.name.isEmpty) = true := by cases hp : p.name <;> simp_all
+    simp only [this, Bool.true_and, hs, Bool.and_eq_true, List.all_eq_true]
+    refine ⟨?_, ?_⟩
+    · intro a ha
+      cases hr : a.required
+      · simp
+      · simp [h1 a ha hr]
+    · intro kv hkv
+      rcases h2 kv hkv with h | ⟨a, hf, v, hv⟩
+      · simp [h]
+      · simp only [Bool.or_eq_true]
+        right
+        unfold argReading
+        simp only [hf, hv, Option.isSome_some]
+
+/-! ## loading a configuration -/
+
+/-- A compiled configuration is valid: every ruleset, detector group and plugin is named, every
+    plugin exists, required arguments are present, nothing undeclared is given, every value
+    (plugin arguments and the two ruleset delays) has a valid reading. -/
+theorem accept_only_if_valid (env : Env) (he : EnvOk env) (root : IRRoot) (e : EngineC)
+    (h : compile env root = .ok e) : irValid env root = true :=
+  (compile_sound he h).1
+
+/-- A compiled configuration is honoured exactly: rulesets, groups and plugins in the order of
+    the IR; each plugin instantiated under its name with precisely the given arguments, holding
+    for every argument its valid reading; delays, drop-in flags, xattr filter and cgroup as given. -/
+theorem honoured (env : Env) (he : EnvOk env) (root : IRRoot) (e : EngineC)
+    (h : compile env root = .ok e) : engineHonours env root e :=
+  (compile_sound he h).2
+
+/-- `compile` returns an engine or the error result; no exception leaves it. -/
+theorem no_escape_compile (env : Env) (root : IRRoot) (x : Exc) : compile env root ≠ .throws x :=
+  noThrow_compile env root x
+
+/-- Start-up (`Main.cpp parseConfig` + `compile`), for every JSON value tree and for texts that are
+    not JSON at all (`doc = none`): rejected or accepted, never an exception. -/
+theorem no_escape_load (env : Env) (doc : Option JVal) (x : Exc) : load env doc ≠ .throws x := by
+  unfold load
+  exact noThrow_bind (noThrow_catchAll _) (fun ir => noThrow_compile env ir) x
+
+/-- A drop-in file at run time (`processDropInAdd` → `compileDropIn` on the watcher thread):
+    rejected or accepted, never an exception (which would terminate the daemon). -/
+theorem no_escape_dropin (env : Env) (root : IRRoot) (doc : Option JVal) (x : Exc) :
+    loadDropIn env root doc ≠ .throws x := by
+  unfold loadDropIn
+  exact noThrow_bind (noThrow_catchAll _) (fun ir => noThrow_compileDropIn env root ir) x
+
+/-- Start-up from a document: accepted ⇒ the document parsed to an IR that is valid and honoured. -/
+theorem load_accept_only_if_valid (env : Env) (he : EnvOk env) (doc : Option JVal) (e : EngineC)
+    (h : load env doc = .ok e) :
+    ∃ ir, parseJson doc = .ok ir ∧ irValid env ir = true ∧ engineHonours env ir e := by
+  unfold load at h
+  obtain ⟨ir, hir, hc⟩ := bind_ok h
+  have hp : parseJson doc = .ok ir := by
+    cases hpj : parseJson doc with
+    | ok a => simp only [hpj, Res.catchAll, Res.ok.injEq] at hir; rw [hir]
+    | rejected => simp [hpj, Res.catchAll] at hir
+    | throws x => simp [hpj, Res.catchAll] at hir
+  exact ⟨ir, hp, compile_sound he hc⟩
+
+/-- An accepted drop-in is valid: every drop-in ruleset is named, targets a ruleset of the base
+    configuration, and its plugins, delays and hooks are valid. -/
+theorem dropin_accept_only_if_valid (env : Env) (he : EnvOk env) (root : IRRoot) (doc : Option JVal)
+    (u : DropInUnitC) (h : loadDropIn env root doc = .ok u) :
+    ∃ ir, parseJson doc = .ok ir ∧ dropInValid env root ir = true := by
+  unfold loadDropIn at h
+  obtain ⟨ir, hir, hc⟩ := bind_ok h
+  have hp : parseJson doc = .ok ir := by
+    cases hpj : parseJson doc with
+    | ok a => simp only [hpj, Res.catchAll, Res.ok.injEq] at hir; rw [hir]
+    | rejected => simp [hpj, Res.catchAll] at hir
+    | throws x => simp [hpj, Res.catchAll] at hir
+  exact ⟨ir, hp, compileDropIn_sound he hc⟩
+
+/-- Arguments given in the document are not dropped on the way to the IR: a plugin that keeps
+    its name carries exactly the members of its `args` object, all of them scalars. -/
+theorem json_args_kept (l : List (Str × JVal)) (al : List (Str × JVal))
+    (ha : objGet l "args" = some (JVal.obj al))
+    (hn : (parsePlugin (.obj l)).name ≠ []) :
+    al.all (fun kv => jisScalar kv.2) = true ∧ (parsePlugin (.obj l)).args.map (·.1) = al.map (·.1) := by
+  have key : ∀ (al : List (Str × JVal)) (a : List (Str × Str)), parseArgsObj al = some a →
+      al.all (fun kv => jisScalar kv.2) = true ∧ a.map (·.1) = al.map (·.1) := by
+    intro al
+    induction al with
+    | nil => intro a h; simp only [parseArgsObj, Option.some.injEq] at h; subst h; simp
+    | cons kv rest ih =>
+      intro a h
+      obtain ⟨k, v⟩ := kv
+      simp only [parseArgsObj] at h
+      by_cases hsc : jisScalar v = true
+      · rw [if_pos hsc] at h
+        cases hs : jasString v with
+        | ok str =>
+          cases hr : parseArgsObj rest with
+          | some r =>
+            simp only [hs, hr, Option.some.injEq] at h
+            subst h
+            obtain ⟨h1, h2⟩ := ih r hr
+            simp [hsc, h1, h2]
+          | none => simp [hs, hr] at h
+        | rejected => simp [hs] at h
+        | throws e => simp [hs] at h
+      · rw [if_neg hsc] at h; exact absurd h (by simp)
+  unfold parsePlugin at hn ⊢
+  simp only at hn ⊢
+  cases hname : objGet l "name" with
+  | none => simp [hname, emptyPlugin] at hn
+  | some nv =>
+    cases nv with
+    | str name =>
+      simp only [hname, ha] at hn ⊢
+      cases hp : parseArgsObj al with
+      | some a =>
+        simp only [hp] at hn ⊢
+        exact key al a hp
+      | none => simp [hp, emptyPlugin] at hn
+    | null => simp [hname, emptyPlugin] at hn
+    | bool b => simp [hname, emptyPlugin] at hn
+    | int i => simp [hname, emptyPlugin] at hn
+    | arr x => simp [hname, emptyPlugin] at hn
+    | obj x => simp [hname, emptyPlugin] at hn
+
+
+/-! ## the hypotheses are satisfiable, the statements are about non-trivial inputs -/
+
+set_option exponentiation.threshold 20000
+set_option maxRecDepth 20000
+
+example : parseSize "1.5G 32K".toList = some 1610645504 := by decide
+example : validSize "1.5M 32K 512".toList = some (3 * 2 ^ 19 + 32 * 2 ^ 10 + 512) := by decide
+example : parseSize "9223372036854775807".toList = some 9223372036854775807 := by decide
+example : parseSize "9223372036854775808".toList = none := by decide
+example : validSize "9223372036854775808".toList = none := by decide
+example : parseSize "1e30".toList = none ∧ parseSize "nan".toList = none ∧ parseSize "inf".toList = none ∧
+    parseSize "".toList = none ∧ parseSize "99999999999T".toList = none := by decide
+example : parseSizeOrPercent "5%".toList 1000 = some 50 ∧ parseSizeOrPercent "5.5%".toList 1000 = none ∧
+    parseSizeOrPercent "5".toList 1000 = some 5242880 ∧ parseSizeOrPercent "9999999999999".toList 1000 = none := by decide
+example : TotalOk 16384000000 := by unfold TotalOk; decide
+example : (match parseArg .int [] 0 "12abc".toList with | .error .invalidArgument => true | _ => false) = true ∧
+    (match parseArg .uint [] 0 "1.25".toList with | .error .invalidArgument => true | _ => false) = true ∧
+    (match parseArg .int64 [] 0 "18446744073709551615".toList with | .error .outOfRange => true | _ => false) = true ∧
+    (match parseArg .int [] 0 " 12".toList with | .ok (.int 12) => true | _ => false) = true := by decide
+
+/-- a machine with 16 GB of memory and 2 GB of swap -/
+def env₀ : Env := ⟨"/sys/fs/cgroup".toList, fun _ => some 16384000000, fun _ => some 2048000000⟩
+
+set_option linter.defProp false in
+def env₀_ok : EnvOk env₀ := by
+  have hm : ∀ b, env₀.memAt b = some 16384000000 := fun _ => rfl
+  have hs : ∀ b, env₀.swapAt b = some 2048000000 := fun _ => rfl
+  constructor
+  · intro b t h
+    rw [hm b] at h
+    simp only [Option.some.injEq] at h
+    subst h
+    unfold TotalOk
+    decide
+  · intro b t h
+    rw [hs b] at h
+    simp only [Option.some.injEq] at h
+    subst h
+    decide
+
+def plugin (name : String) (args : List (String × String)) : IRPlugin :=
+  ⟨name.toList, args.map fun kv => (kv.1.toList, kv.2.toList)⟩
+
+def ruleset₀ (delay : String) : IRRuleset :=
+  { name := "user session protection".toList
+    dgs := [⟨"pressure".toList, [plugin "pressure_above" [("cgroup", "user.slice"), ("resource", "memory"), ("threshold", "60"), ("duration", "30")],
+                                plugin "memory_above" [("cgroup", "user.slice"), ("threshold", "10%"), ("duration", "10")]]⟩]
+    acts := [plugin "kill_by_memory_size_or_growth" [("cgroup", "user.slice/*"), ("min_growth_ratio", "1.25")]]
+    disableOnDropIn := false
+    detectorgroupsEnabled := true
+    actiongroupEnabled := false
+    silenceLogs := "engine".toList
+    postActionDelay := delay.toList
+    prekillHookTimeout := []
+    xattrFilter := []
+    cgroup := [] }
+
+def ir₀ (delay : String) : IRRoot := ⟨[ruleset₀ delay], [plugin "dummy_prekill_hook" [("cgroup", "a/*")]]⟩
+
+/-- a configuration that is accepted (so `accept_only_if_valid` / `honoured` speak about it) … -/
+example : (compile env₀ (ir₀ "10")).isOk = true := by decide
+example : irValid env₀ (ir₀ "10") = true := by decide
+/-- … and the input that used to escape from `compileRuleset` as `std::invalid_argument` is rejected -/
+example : (match compile env₀ (ir₀ "abc") with | .rejected => true | _ => false) = true := by decide
+example : (match compile env₀ (ir₀ "10abc") with | .rejected => true | _ => false) = true := by decide
+
+/-- wrong value shapes in a document: `"rulesets": 5` is an empty configuration, `"name": {}` makes
+    the parser throw and start-up reject; a text that is not JSON is rejected too -/
+example : (match load env₀ (some (.obj [("rulesets".toList, .arr [.obj [("name".toList, .obj [])]])])) with
+    | .rejected => true | _ => false) = true := by decide
+example : (match load env₀ none with | .rejected => true | _ => false) = true := by decide
 
 end C12
